@@ -8,6 +8,42 @@ HERE = os.path.dirname(os.path.dirname(os.path.abspath(__file__)))
 ALL = ["C%02d" % i for i in range(1, 21)]
 
 CHECKS = {
+ "C16": dict(
+  category="exploration",
+  text="Wrapper monitors on the real entry points (glue.parse_emboss_file, header_generator.generate_header, "
+       "error.format_errors, the CLI helper emboss_front_end.parse_and_log_errors and real embossc processes) over thousands of "
+       "hostile file sets per run: random characters, token soup, grammar-derived programs, truncated / text-mutated / "
+       "semantically mutated corpus files (names, numbers at 2^31/2^63/2^64 edges, types, operators, attributes, parameters, "
+       "virtual fields, nesting depth <= 40), multi-file import sets (missing, cyclic, self, broken), 100-290-field structs. Judged: "
+       "no exception (bucketed by exception type + innermost repository frame), errors non-empty with non-empty groups, every "
+       "message names a supplied file and a position inside it, renders with and without sources and colour, no synthetic "
+       "'compiler bug' location, embossc exits 0/1 without traceback; non-termination decided by a CPU-seconds budget "
+       "(ITIMER_VIRTUAL), not a wall clock. Genuine upstream crashes are listed in known_findings.json by mechanism.",
+  note="Inputs within the property's practical bound; a firing 120 s wall-clock watchdog is inconclusive; known findings are matched "
+       "by (exception type, innermost repo frame) or (message template), so a new crash site is still a VIOLATION.",
+  technique="runtime monitors on entry points + message-shape checker, hostile generated inputs, CPU-budget watchdog",
+  design_ref="5/C16"),
+ "C17": dict(
+  category="exploration",
+  text="Offline equality checker over recorded outputs: fresh processes with different PYTHONHASHSEED each compile the whole "
+       "source set (accepted corpus, truncated corpus hitting many parser states, semantic mutants, hand-written multi-error / "
+       "ambiguous / multi-cycle / duplicate-attribute sets) through the real entry points and record IR JSON, header and rendered "
+       "diagnostics; compared across seeds, against a same-seed repeat, an in-process repetition, a reversed-order process "
+       "(up to reserved anonymous numbering), embossc vs emboss_front_end|emboss_codegen_cpp, import-directory order, and the "
+       "table numbering of a freshly generated parser.",
+  note="Outputs compared: IrDataSerializer.to_json text, header text, error.format_errors text, CLI stderr/exit status.",
+  technique="recorded-output equality across hash seeds / processes / repetitions (offline trace checker)",
+  design_ref="5/C17"),
+ "C18": dict(
+  category="exploration",
+  text="Monitor at the boundary the two-program build uses: every IR obtained from the real front end (hand-written node-kind "
+       "modules, corpus, accepted semantic mutants) is round-tripped through IrDataSerializer.to_json/from_json and compared with "
+       "an own deep comparer over dataclass fields (set/unset, which_* selectors, lists, enums, >64-bit integers, SourceLocation "
+       "flags); to_json idempotent through the round trip; header from the re-read IR byte-identical; real CLI split path vs "
+       "embossc on a sample. IR field coverage (class.field populated) is measured against the whole ir_data schema.",
+  note="Trusts the json module and the own comparer; only accepted sources yield IRs.",
+  technique="round-trip monitor with independent deep comparer + CLI differential",
+  design_ref="5/C18"),
  "C11": dict(
   category="exploration",
   text="Monitor around the real format_emb.format_emboss_parse_tree on thousands of parseable texts (programs derived from "
